@@ -969,6 +969,12 @@ Proof.
   - apply Hnil. reflexivity.
   - apply Hnil. unfold ev_snap_install. break_match; reflexivity.
   - apply Hnil. apply c_heartbeat_log.
+  - generalize true; intros lost.
+    unfold c_monitor. destruct (cur_node w n); [|apply Hnil; reflexivity].
+    destruct (n_pc c); try (apply Hnil; reflexivity).
+    destruct (m_new_partition_log w id) as [l Hl]. destruct (m_new_partition w id) as [w1 r]. simpl in *.
+    exists l. rewrite <- Hl. destruct r; [destruct lost|]; try reflexivity.
+    destruct (c_add_part (w_cur w1) v) as [cs ok]. destruct ok; reflexivity.
 Qed.
 
 (* ---------- the snapshot object held by raft ---------- *)
@@ -1034,6 +1040,12 @@ Proof.
     destruct (w_snap w) as [[idx st]|] eqn:E; [|congruence].
     destruct (Nat.leb (r_applied r) idx); simpl; congruence.
   - apply c_heartbeat_snap.
+  - generalize true; intros lost.
+    unfold c_monitor. destruct (cur_node w n); [|reflexivity]. destruct (n_pc c); try reflexivity.
+    unfold m_new_partition. destruct (vol_find id (w_mvol w)); [|reflexivity].
+    destruct (n0 =? 0); [reflexivity|]. unfold propose.
+    destruct (m_apply _ (CNewPart id)) as [s' r]. simpl. destruct r; [destruct lost|]; try reflexivity.
+    break_match; reflexivity.
 Qed.
 
 Lemma ev_snap_install_Inv w j : Inv w -> SInv w -> Inv (ev_snap_install w j).
@@ -1098,6 +1110,7 @@ Proof.
   - apply Hsame; [apply ev_snap_install_Inv; auto|]. unfold ev_snap_install. break_match; reflexivity.
   - unfold c_heartbeat_syncfail. destruct (c_heartbeat_Inv w n (sync_needed w n) HI) as (H1 & H2 & _).
     split; auto. rewrite H2. auto.
+  - apply c_monitor_Inv; auto.
 Qed.
 
 Lemma Inv_init : Inv w_init.
